@@ -224,6 +224,8 @@ def run_world(case):
         w.key_ctr += 1
         return W.test_key(k)
 
+    one_cls = W.make_session_class(cur)        # persist() reconnects with one and the same session class
+
     class PWS(WebSocket):
         def connect(self, *a, **kw):
             if cur['i'] + 1 >= len(scs):
@@ -234,7 +236,7 @@ def run_world(case):
             wld.canon_write = W._canon_write_factory(wld)
             cur['sc'], cur['world'], cur['evidx'] = sc, wld, 0
             plog.append(kwtok(a, kw))
-            return WebSocket.connect(self, *a, session_class=W.make_session_class(wld), **kw)
+            return WebSocket.connect(self, *a, session_class=one_cls, **kw)
 
     class FakeExit(object):
         def wait(self, t=None):
